@@ -25,6 +25,9 @@ const (
 	StoreText  = "text"
 	StoreJSON  = "json"
 	StoreNum   = "num" // ints and floats
+	// StoreCollide: keys and values chosen so that different (value, key) tuples
+	// have equal concatenations ("ab"+"c" = "a"+"bc")
+	StoreCollide = "collide"
 )
 
 func genValue(r *Rng, style string) string {
@@ -72,6 +75,21 @@ func keyUniverse(nk, nm int) []string {
 func genStore(r *Rng, n int, style string) []KV {
 	if n <= 0 {
 		return []KV{}
+	}
+	if style == StoreCollide {
+		keys := []string{"a", "ab", "abc", "b", "bc", "c", "ca", "cab", "x", "xa", "ax", "k0", "k00", "0", "00"}
+		vals := []string{"a", "ab", "abc", "b", "bc", "c", "ca", "", "x", "k", "k0", "0"}
+		shuffle(r, keys)
+		if n > len(keys) {
+			n = len(keys)
+		}
+		ks := append([]string{}, keys[:n]...)
+		sort.Strings(ks)
+		out := make([]KV, len(ks))
+		for i, k := range ks {
+			out[i] = KV{k, pick(r, vals)}
+		}
+		return out
 	}
 	nk := n
 	nm := n / 3
